@@ -1134,7 +1134,9 @@ def _obviously_different(a: HplExpression, b: HplExpression) -> bool:
         return True
     if isinstance(a, HplBinaryOperator):
         op: BinaryOperatorDefinition = a.operator
-        assert not isinstance(a.operand1, HplLiteral)  # due to simplification
+        if isinstance(a.operand1, HplLiteral):
+            # non-commutative operators keep a literal on the left (e.g. 1 - x): nothing obvious to say
+            return False
         if op.is_plus or op.is_minus:
             if a.operand1 == b and isinstance(a.operand2, HplLiteral):
                 assert a.operand2.value != 0  # due to simplification
